@@ -12,11 +12,14 @@ B == INSTANCE BigRange
 VARIABLES kind, e, d
 vars == <<kind, e, d>>
 AllEnc == { A!Enc(lo, ra, n, w, bk) : lo \in 0..(A!M - 1), ra \in 1..(A!M - 1), n \in 0..MaxSitN, w \in 0..A!WMax, bk \in A!WordSeqs(W, 1) }
-Init == \/ kind = "enc" /\ e \in { x \in AllEnc : A!EncInv(x) /\ (x.sitN = 0 => x.sitW = 0) } /\ d = A!DecNew(<<>>)
-        \/ kind = "dec" /\ e = A!EncNew
-           /\ \E data \in A!WordSeqs(W, MaxData) : \E pos \in 0..Len(data) : \E lo \in 0..(A!M - 1) : \E ra \in A!Pow2(A!K)..(A!M - 1) :
-                d = A!DecSeek(A!DecNew(data), pos, lo, ra)
-Next == UNCHANGED vars
+\* all states are successors of one initial state, so that TLC's workers evaluate the laws in parallel
+\* (two stages: first `lower`, then the rest)
+Init == kind = "init" /\ e = A!EncNew /\ d = A!DecNew(<<>>)
+Next == \/ kind = "init" /\ kind' = "lower" /\ \E lo \in 0..(A!M - 1) : e' = A!Enc(lo, A!M - 1, 0, 0, <<>>) /\ d' = d
+        \/ kind = "lower" /\ kind' = "enc" /\ e' \in { x \in AllEnc : x.lower = e.lower /\ A!EncInv(x) /\ (x.sitN = 0 => x.sitW = 0) } /\ d' = d
+        \/ kind = "lower" /\ kind' = "dec" /\ e' = e
+              /\ \E data \in A!WordSeqs(W, MaxData) : \E pos \in 0..Len(data) : \E ra \in A!Pow2(A!K)..(A!M - 1) :
+                   d' = A!DecSeek(A!DecNew(data), pos, e.lower, ra)
 Spec == Init /\ [][Next]_vars
 
 F(n) == B!FromNat(n)
